@@ -325,6 +325,21 @@ fn rename_twin(d: &Def, newname: &str) -> Def {
 pub fn gen_pair_batch(seed: u64, n_base: usize) -> PairBatch {
     let mut g = Gen::new(seed, "pairs", 2, "B");
     let mut stats: BTreeMap<String, usize> = BTreeMap::new();
+    // fixed bases: field-less enums with explicit values under repr(C) and repr(u8)
+    for (nm, repr) in [("CEnum", Repr::C), ("U8Enum", Repr::Int(Prim::U8))] {
+        g.push(Def {
+            name: format!("B{}", nm),
+            repr,
+            kind: DefKind::Enum {
+                variants: vec![
+                    VariantDef { name: "A".into(), shape: Shape::Unit, fields: vec![], discr: Some(1), vfrom: 0, vto: None },
+                    VariantDef { name: "B".into(), shape: Shape::Unit, fields: vec![], discr: Some(2), vfrom: 0, vto: None },
+                ],
+            },
+            params: 0,
+            recursive: false,
+        });
+    }
     // base definitions: same mix as the data batches (without generics/recursion)
     while g.uni.defs.len() < n_base {
         match g.rng.weighted(&[20, 12, 12, 30, 16, 6]) {
@@ -378,6 +393,32 @@ pub fn gen_pair_batch(seed: u64, n_base: usize) -> PairBatch {
                     pairs.push(PairSpec { a: roots.len() - 2, b: roots.len() - 1, rel: format!("mut.nested.{}", label), must_accept: false });
                     *stats.entry("pair.mut.nested".into()).or_insert(0) += 1;
                 }
+            }
+        }
+        // same wire format, different memory representation: a field-less enum with an explicit
+        // integer repr whose explicit discriminant values differ (C11: must not be passed by reference)
+        let int_or_c = match base.repr {
+            Repr::Int(p) => Some(p),
+            Repr::C => Some(Prim::I32),
+            _ => None,
+        };
+        if let (DefKind::Enum { variants }, Some(p)) = (&base.kind, int_or_c) {
+            if variants.iter().all(|v| v.fields.is_empty()) && variants.len() <= 20 && !variants.is_empty() {
+                let mut t = base.clone();
+                t.name = format!("{}Dv", base.name);
+                if let DefKind::Enum { variants: tv } = &mut t.kind {
+                    let shift: i64 = if p.is_signed() { -3 } else { 3 };
+                    let mut prev: i64 = -1;
+                    for v in tv.iter_mut() {
+                        let cur = v.discr.unwrap_or(prev + 1);
+                        prev = cur;
+                        v.discr = Some(cur + shift);
+                    }
+                }
+                let ti = g.push(t);
+                roots.push(Root { ty: Ty::Def(ti, vec![]), class: "twin.discriminant_values".into() });
+                pairs.push(PairSpec { a: i, b: roots.len() - 1, rel: "layout.discriminant_values".into(), must_accept: true });
+                *stats.entry("pair.layout.discriminant_values".into()).or_insert(0) += 1;
             }
         }
         // wrappers: Box/Rc/Arc/RefCell/Mutex/RwLock<T> vs T
